@@ -204,6 +204,7 @@ func main() {
 		Overlay:    overlay,
 	}
 	pkgs, err := packages.Load(pcfg, *pkgPath)
+	os.RemoveAll(scratch) // only the loader needs the scratch modfile (the exits below bypass deferred calls)
 	if err != nil {
 		fatal(res, *out, "load: %v", err)
 	}
